@@ -16,7 +16,8 @@ LEAN_TARGETS = ["TornadoModel.C13.Props"]
 _P = "TornadoModel.C13."
 THEOREMS = [_P + n for n in [
     "close_settles_all", "close_spec", "others_get_closed_error", "close_error", "callback_once_after", "close_again",
-    "no_write_after_close",
+    "no_write_after_close", "closed_step", "closed_stays_closed", "read_after_close_only_buffered",
+    "satisfiable_read_gets_data", "pending_read_at_close",
 ]]
 TRUSTED = base.TRUSTED + [
     "asyncio.Future set-once semantics and FIFO call_soon ordering (abstraction: a settle event per future id)",
@@ -31,12 +32,14 @@ RULE = ("op sequences <= 5 over a 12-op alphabet (complete for <= 2 in quick, <=
         "least one future was pending")
 EXHAUSTIVE = {"quick": False, "thorough": False}
 CLAUSES = {
-    "every pending read, write and connect future is completed exactly once": "all_settled_once + close_settles_all",
-    "reads that buffered data can satisfy complete with that data": "satisfiable_read_gets_data",
-    "everything else fails with StreamClosedError carrying the real error": "others_get_closed_error",
-    "the close callback runs exactly once after that": "callback_once_after",
-    "no later write or connect succeeds": "no_write_after_close (+ tie only: connect after close is not part of BaseIOStream)",
-    "later reads succeed only from data that was already buffered": "read_after_close_only_buffered",
+    "every pending read, write and connect future is completed exactly once":
+        "close_settles_all + close_spec (each pending id appears once in the events of close) ; tie only: all_settled_once_goal "
+        "(no id settled twice over a whole run; enforced by asyncio.Future, observed per future by the harness)",
+    "reads that buffered data can satisfy complete with that data": "satisfiable_read_gets_data + pending_read_at_close (vs Spec.expected)",
+    "everything else fails with StreamClosedError carrying the real error": "others_get_closed_error + pending_read_at_close + close_error",
+    "the close callback runs exactly once after that": "callback_once_after + close_again",
+    "no later write or connect succeeds": "no_write_after_close + closed_stays_closed (tie only: connect after close is not part of BaseIOStream)",
+    "later reads succeed only from data that was already buffered": "read_after_close_only_buffered + closed_step",
 }
 PARALLEL = False
 CASE_TIMEOUT = 120
